@@ -1,10 +1,204 @@
-(* C19 — property theorems only. *)
+(* C19 — a token secret never leaves the cluster unsalted: property theorems only.  Each is closed by
+   `exact` of a lemma from proofs/C19_*.v.  Model: model/C19_model.v (salt_token = auth.SaltToken as
+   it is after the F6a fix, provide_one/provider = federation.saltedTokenProvider, remote_client =
+   keepstore remoteProxy.remoteClient, legacy = controller Handler.saltAuthToken).
+   v2_fields token uuid secret: the first three '/'-separated fields of token are "v2", uuid, secret;
+   is_salted_secret s: s is exactly 40 lowercase hex digits; is_obsolete t: 41+ characters [0-9a-z].
+   Nothing is assumed about HMAC-SHA1. *)
 From Coq Require Import NArith List String Ascii Bool.
-From AV Require Import lib.Str lib.Sha1 lib.TokSplit model.C19_model proofs.C19_proofs.
+From AV Require Import lib.Str lib.Sha1 lib.TokSplit model.C19_model model.C19_run proofs.C19_proofs proofs.C19_spec.
 Import ListNotations.
 Local Open Scope string_scope.
+
+(* salting replaces the secret by the 40-lowercase-hex HMAC-SHA1 of the remote id keyed with the secret,
+   keeps the uuid, drops further path segments *)
+Theorem C19_salt_shape : forall token remote uuid secret,
+  v2_fields token uuid secret -> is_salted_secret secret = false ->
+  salt_token token remote = Salted ("v2/" ++ uuid ++ "/" ++ hmac_sha1_hex secret remote) /\
+  String.length (hmac_sha1_hex secret remote) = 40 /\ all_chars is_lhex (hmac_sha1_hex secret remote) = true.
+Proof. exact salt_shape. Qed.
+Print Assumptions C19_salt_shape.
 
 Theorem C19_salt_deterministic : forall token remote a b,
   salt_token token remote = a -> salt_token token remote = b -> a = b.
 Proof. exact salt_deterministic. Qed.
 Print Assumptions C19_salt_deterministic.
+
+(* a secret that already is a 40-hex salt is never salted again: the token is returned as it is when
+   its uuid belongs to the remote, and reported as already salted otherwise *)
+Theorem C19_never_double_salted : forall token remote uuid secret,
+  v2_fields token uuid secret -> is_salted_secret secret = true ->
+  salt_token token remote = if has_prefix remote uuid then Salted token else ErrSalted.
+Proof. exact never_double_salted. Qed.
+Print Assumptions C19_never_double_salted.
+
+(* in particular the output of salting is a fixed point / refused for every remote *)
+Theorem C19_salted_is_fixed_point : forall token remote uuid secret remote' out,
+  v2_fields token uuid secret -> is_salted_secret secret = false ->
+  salt_token token remote = Salted out ->
+  salt_token out remote' = if has_prefix remote' uuid then Salted out else ErrSalted.
+Proof. exact salted_is_fixed_point. Qed.
+Print Assumptions C19_salted_is_fixed_point.
+
+(* what is not v2/uuid/secret never yields a token from SaltToken *)
+Theorem C19_salt_not_v2_is_error : forall token remote,
+  not_v2 token ->
+  (is_obsolete token = true /\ salt_token token remote = ErrObsolete) \/
+  (is_obsolete token = false /\ salt_token token remote = ErrFormat).
+Proof. exact salt_not_v2_is_error. Qed.
+Print Assumptions C19_salt_not_v2_is_error.
+
+(* passthrough cases of the provider: unsalted v2 => salted; already salted => as it is; not in
+   Arvados format => unchanged; legacy => by the local lookup *)
+Theorem C19_passthrough_cases : forall local remote token,
+  (forall uuid secret, v2_fields token uuid secret -> is_salted_secret secret = false ->
+     provide_one local remote token = Some ("v2/" ++ uuid ++ "/" ++ hmac_sha1_hex secret remote)) /\
+  (forall uuid secret, v2_fields token uuid secret -> is_salted_secret secret = true ->
+     provide_one local remote token = Some token) /\
+  (not_v2 token -> is_obsolete token = false -> provide_one local remote token = Some token) /\
+  (not_v2 token -> is_obsolete token = true ->
+     provide_one local remote token =
+       match local token with
+       | AcaUnauthorized => Some token
+       | AcaError => None
+       | AcaOk uuid api =>
+         if has_prefix remote uuid then Some token
+         else match salt_token ("v2/" ++ uuid ++ "/" ++ api) remote with Salted t => Some t | _ => None end
+       end).
+Proof. exact provide_one_meets_spec. Qed.
+Print Assumptions C19_passthrough_cases.
+
+(* a legacy token that resolves locally to (uuid, api_token) of another cluster leaves as the salted
+   form of v2/uuid/api_token *)
+Theorem C19_legacy_token_salted_from_resolved_form : forall local remote token uuid api,
+  not_v2 token -> is_obsolete token = true -> local token = AcaOk uuid api ->
+  has_prefix remote uuid = false -> has_char "/" uuid = false -> has_char "/" api = false -> is_salted_secret api = false ->
+  provide_one local remote token = Some ("v2/" ++ uuid ++ "/" ++ hmac_sha1_hex api remote).
+Proof. exact provide_legacy_resolved. Qed.
+Print Assumptions C19_legacy_token_salted_from_resolved_form.
+
+(* the provider handles the tokens one by one and fails as a whole if one fails *)
+Theorem C19_provider_pointwise : forall local remote tokens outs,
+  provider local remote (Some tokens) = Some outs <->
+  Forall2 (fun t o => provide_one local remote t = Some o) tokens outs.
+Proof. exact provider_pointwise. Qed.
+Print Assumptions C19_provider_pointwise.
+
+(* non-disclosure: the secret occurs in v2/uuid/H only where it occurs in "v2", the uuid or the digest;
+   a secret longer than 40 characters occurs in it only if it occurs in the uuid *)
+Theorem C19_forwarded_has_no_secret : forall uuid secret remote,
+  has_char "/" secret = false ->
+  let out := "v2/" ++ uuid ++ "/" ++ hmac_sha1_hex secret remote in
+  (contains secret out = true ->
+   contains secret "v2" = true \/ contains secret uuid = true \/ contains secret (hmac_sha1_hex secret remote) = true) /\
+  (40 < String.length secret -> contains secret out = true -> contains secret uuid = true).
+Proof. exact forwarded_has_no_secret. Qed.
+Print Assumptions C19_forwarded_has_no_secret.
+
+(* ... hence no token the provider forwards contains the long secret of the token it was made from *)
+Theorem C19_provider_no_secret : forall local remote ts outs,
+  provider local remote (Some ts) = Some outs -> no_secret_b ts outs = true.
+Proof. exact provider_no_secret. Qed.
+Print Assumptions C19_provider_no_secret.
+
+(* keepstore hands the remote cluster a token only if SaltToken produced it *)
+Theorem C19_keepstore_remote_client : forall token remote out,
+  remote_client token remote = Some out <-> salt_token token remote = Salted out.
+Proof. exact remote_client_salted. Qed.
+Print Assumptions C19_keepstore_remote_client.
+
+(* Legacy controller path (F6b, open).  "A forwarded request carries only the salted form of its
+   first token" is false: *)
+Theorem C19_legacy_forwards_only_salted_refuted :
+  ~ (forall db r remote r' t0 rest uuid secret,
+       legacy db r remote = LFwd r' -> load_tokens r = t0 :: rest ->
+       v2_fields t0 uuid secret -> is_salted_secret secret = false ->
+       carried r' = ["v2/" ++ uuid ++ "/" ++ hmac_sha1_hex secret remote]).
+Proof. exact legacy_forwards_only_salted_refuted. Qed.
+Print Assumptions C19_legacy_forwards_only_salted_refuted.
+
+(* the two witnesses: token only in the urlencoded form body; token in header and cookie *)
+Theorem C19_legacy_form_token_forwarded_unsalted_refuted :
+  exists r', legacy (fun _ => DbError) f6b_form_request "bbbbb" = LFwd r' /\
+             In "v2/aaaaa-gj3su-000000000000000/thisisthesecretpartofthetokenwhichislongerthan40chars" (carried r').
+Proof. exact legacy_form_token_forwarded_unsalted. Qed.
+Print Assumptions C19_legacy_form_token_forwarded_unsalted_refuted.
+
+Theorem C19_legacy_cookie_token_forwarded_unsalted_refuted :
+  exists r', legacy (fun _ => DbError) f6b_cookie_request "bbbbb" = LFwd r' /\
+             In "v2/aaaaa-gj3su-000000000000000/thisisthesecretpartofthetokenwhichislongerthan40chars" (carried r').
+Proof. exact legacy_cookie_token_forwarded_unsalted. Qed.
+Print Assumptions C19_legacy_cookie_token_forwarded_unsalted_refuted.
+
+(* It holds when the request has no api_token in its form body and no token cookie: the forwarded
+   request then carries exactly one token, the salted form of the first one found (header, basic-auth
+   password, query); every other token is dropped. *)
+Theorem C19_legacy_forwards_only_salted_partial : forall db r remote r' t0 rest uuid secret,
+  values "api_token" (l_form r) = [] -> l_cookie r = None ->
+  legacy db r remote = LFwd r' -> load_tokens r = t0 :: rest ->
+  v2_fields t0 uuid secret -> is_salted_secret secret = false ->
+  carried r' = ["v2/" ++ uuid ++ "/" ++ hmac_sha1_hex secret remote].
+Proof. exact legacy_forwards_only_salted_partial. Qed.
+Print Assumptions C19_legacy_forwards_only_salted_partial.
+
+Theorem C19_legacy_carries_one_token_partial : forall db r remote r' t0 rest,
+  values "api_token" (l_form r) = [] -> l_cookie r = None ->
+  legacy db r remote = LFwd r' -> load_tokens r = t0 :: rest ->
+  exists out, carried r' = [out] /\
+    (salt_token t0 remote = Salted out \/
+     ((salt_token t0 remote = ErrObsolete \/ salt_token t0 remote = ErrFormat) /\
+      (out = t0 \/ exists user auth_uuid secret, db t0 = DbFound user auth_uuid secret /\
+                                                salt_token ("v2/" ++ auth_uuid ++ "/" ++ secret) remote = Salted out))).
+Proof. exact legacy_carries_one_token. Qed.
+Print Assumptions C19_legacy_carries_one_token_partial.
+
+(* The evaluator: boolean specification = Prop-level statements; digest table transparent; the model
+   satisfies the specification; known-finding bits only inside the F6b trigger. *)
+Theorem C19_spec_salt_reflects : forall token remote o,
+  spec_salt_k hmac_sha1_hex token remote o = true <->
+  ((forall uuid secret, v2_fields token uuid secret -> is_salted_secret secret = false ->
+      o = Salted ("v2/" ++ uuid ++ "/" ++ hmac_sha1_hex secret remote)) /\
+   (forall uuid secret, v2_fields token uuid secret -> is_salted_secret secret = true ->
+      o = if has_prefix remote uuid then Salted token else ErrSalted) /\
+   (not_v2 token -> o = if is_obsolete token then ErrObsolete else ErrFormat)).
+Proof. exact spec_salt_reflects. Qed.
+Print Assumptions C19_spec_salt_reflects.
+
+Theorem C19_spec_fwd_reflects : forall local remote token out,
+  spec_fwd_k hmac_sha1_hex local remote token = out <-> FwdSpec local remote token out.
+Proof. exact spec_fwd_reflects. Qed.
+Print Assumptions C19_spec_fwd_reflects.
+
+Theorem C19_spec_prov_reflects : forall remote ts local o,
+  spec_prov_k hmac_sha1_hex remote (Some ts) local o = true <->
+  (o = provider (tab_get local) remote (Some ts) /\ match o with Some outs => no_secret_b ts outs = true | None => True end).
+Proof. exact spec_prov_reflects. Qed.
+Print Assumptions C19_spec_prov_reflects.
+
+Theorem C19_spec_remote_reflects : forall token remote o,
+  spec_remote_k hmac_sha1_hex token remote o = true <->
+  match o with Some out => salt_token token remote = Salted out | None => forall out, salt_token token remote <> Salted out end.
+Proof. exact spec_remote_reflects. Qed.
+Print Assumptions C19_spec_remote_reflects.
+
+Theorem C19_model_meets_spec :
+  (forall token remote, spec_salt_k hmac_sha1_hex token remote (salt_token token remote) = true) /\
+  (forall remote creds local, spec_prov_k hmac_sha1_hex remote creds local (provider (tab_get local) remote creds) = true) /\
+  (forall token remote, spec_remote_k hmac_sha1_hex token remote (remote_client token remote) = true).
+Proof. exact (conj model_meets_spec_salt (conj model_meets_spec_prov model_meets_spec_remote)). Qed.
+Print Assumptions C19_model_meets_spec.
+
+Theorem C19_check_case_eq : forall c, check_case c = code_of (model_b c) (spec_b c) (known_F6b_bits c).
+Proof. exact check_case_eq. Qed.
+Print Assumptions C19_check_case_eq.
+
+Theorem C19_known_bits_narrow : forall c,
+  known_F6b_bits c <> 0%N ->
+  exists r remote secrets o_auth o_query in_body in_cookie,
+    c = CLegacy r remote secrets false o_auth o_query false false in_body in_cookie false /\
+    (in_body = true \/ in_cookie = true) /\
+    (in_body = true -> form_carries r secrets = true) /\
+    (in_cookie = true -> cookie_carries r secrets = true) /\
+    known_F6b_bits c = ((if in_body then 4 else 0) + (if in_cookie then 8 else 0))%N.
+Proof. exact known_bits_narrow. Qed.
+Print Assumptions C19_known_bits_narrow.
